@@ -18,3 +18,31 @@ Theorem timers_source_is_model timer h :
   = VR [("rx", VC "Heartbeat" [VC "HeartbeatKind::Rx" []; VN (c_max_missed_server_heartbeats * h)]);
         ("tx", VC "Heartbeat" [VC "HeartbeatKind::Tx" []; VN h])].
 Proof. reflexivity. Qed.
+
+(* HeartbeatTimers::{start, fire_rx, fire_tx} as translated: start stores the pair RxTxHeartbeat::new
+   builds from the timer and the interval; a receive-timer event fires the heartbeat started with
+   2 x interval, a send-timer event the one started with the interval - never the other one.
+   ext_model2 reads RxTxHeartbeat::new as its own translation, Option::as_mut / expect as the
+   projection out of Some (None: the panic, VStuck) and Heartbeat::fire(hb, timer) as a term naming
+   the heartbeat it is applied to (what fire computes is C17_fire_source_is_model's subject; the
+   translation of fire_rx / fire_tx is about WHICH heartbeat decides, not about fire's update of it). *)
+Definition ext_model2 (name : string) (args : list val) : val :=
+  if String.eqb name "RxTxHeartbeat::new" then
+    match args with [t; i] => gen_RxTxHeartbeat_new ext_model t i | _ => VStuck end
+  else if String.eqb name "as_mut" then match args with [x] => x | _ => VStuck end
+  else if String.eqb name "expect" then match args with [VC "Some" [x]; _] => x | _ => VStuck end
+  else if String.eqb name "fire" then match args with [hb; t] => VC "fire" [hb; t] | _ => VStuck end
+  else ext_model name args.
+
+Definition timers0 (timer : val) : val := VR [("timer", timer); ("heartbeats", VC "None" [])].
+
+Theorem start_fire_source_is_model timer h :
+  let s1 := fst (gen_HeartbeatTimers_start ext_model2 (timers0 timer) (VN h)) in
+  v_field "timer" s1 = timer /\
+  snd (gen_HeartbeatTimers_fire_rx ext_model2 s1)
+    = VC "fire" [VC "Heartbeat" [VC "HeartbeatKind::Rx" []; VN (c_max_missed_server_heartbeats * h)]; timer] /\
+  snd (gen_HeartbeatTimers_fire_tx ext_model2 s1)
+    = VC "fire" [VC "Heartbeat" [VC "HeartbeatKind::Tx" []; VN h]; timer] /\
+  (* before start there is nothing to fire: the expect() panics *)
+  snd (gen_HeartbeatTimers_fire_rx ext_model2 (timers0 timer)) = VC "fire" [VStuck; timer].
+Proof. repeat split; reflexivity. Qed.
